@@ -8,6 +8,9 @@ use h_common::{Cur, V};
 use s2n_quic_transport::verif_hooks::{data_sender as ds, streams as hook};
 
 const VMAX: u64 = (1 << 62) - 1;
+/// payload capacities stay below u16::MAX + 1: the value `transmit_interval` clamps capacities to, plus one
+/// (= DataSender.cap_bound in the Coq model, the hypothesis of C03_packet_within_limits)
+pub const CAP_BOUND: u64 = u16::MAX as u64 + 1;
 
 pub fn sm(input: &[V]) -> Vec<V> {
     let mut c = Cur::new(input);
@@ -61,7 +64,7 @@ pub fn sm(input: &[V]) -> Vec<V> {
             }
             5 => {
                 let _t = c.usize();
-                let cap = (c.u64() % 65536) as usize;
+                let cap = (c.u64() % CAP_BOUND) as usize;
                 let cons = ds::constraint_of(c.u64());
                 let mode = ds::mode_of(c.u64());
                 let pn = s.next_packet_number;
